@@ -68,10 +68,14 @@ func (p *Pipe) read(b []byte) (int, error) {
 			pPipeShortRead.Hit()
 		}
 	}
-	copy(b, p.buf[:n])
+	raceAcquire(&p.carrier)
+	// byte loop, not copy(): in -race builds copy() is always checked by the
+	// runtime, even inside //go:norace functions
+	for i := 0; i < n; i++ {
+		b[i] = p.buf[i]
+	}
 	p.buf = p.buf[n:]
 	p.ReadN += int64(n)
-	raceAcquire(&p.carrier)
 	return n, nil
 }
 
@@ -109,8 +113,10 @@ func (p *Pipe) write(b []byte) (int, error) {
 		if n > free {
 			n = free
 		}
+		for i := 0; i < n; i++ {
+			p.buf = append(p.buf, b[i])
+		}
 		raceReleaseMerge(&p.carrier)
-		p.buf = append(p.buf, b[:n]...)
 		p.Written += int64(n)
 		total += n
 		b = b[n:]
